@@ -19,6 +19,10 @@ package bttest
 // It is the only function of the write path that reaches Rows.ReplaceOrInsert / Rows.Delete.
 // ---------------------------------------------------------------------------------------------
 
+// Commit counter (C06, C13): number of write-backs through updateRow made by the current thread. Protocol ghost: only
+// updateRow changes it. Handlers state "no commit on an error path, exactly one on success".
+//@ ghostvar btCommits int protocol
+
 //@ func (t *table) updateRow
 //@   property C01 C06
 //@   held t.mu w
@@ -28,6 +32,8 @@ package bttest
 //@   requires btReadEpoch == epoch
 //@   requires btReadRow == obj(r)
 //@   modifies r.Families, elems(r.Families), heap("F:bigtablepb.Family.Columns"), heap("T:*bigtablepb.Column")
+//@   modifies ghost(btCommits)
+//@   ensures btCommits == old(btCommits) + 1
 //@   ensures rowOK(r)
 //@   ensures rowDesc(r)
 //@   ensures forall i :: 0 <= i < len(r.Families) ==> len(r.Families[i].Columns) > 0
@@ -116,6 +122,11 @@ package bttest
 //@   ensures (result0 == nil) <==> (result1 != nil)
 //@   ensures !old(req.TableName in s.tables) ==> result1 != nil && uf_grpcCode(result1) == codes.NotFound
 //@   ensures nolocks()
+// C06: a failed request commits nothing, a successful one commits exactly once, and what is committed is the row that was read
+//@   ensures result1 != nil ==> btCommits == old(btCommits)
+//@   ensures result1 == nil ==> btCommits == old(btCommits) + 1
+//@   callsite applyMutations requires arg0 == tbl && arg1 == r && arg2 == req.Mutations && arg3 == now
+//@   callsite (*table).updateRow requires arg0 == tbl && arg1 == r && btCommits == old(btCommits)
 
 //@ func (s *server) MutateRows
 //@   property C01 C06
@@ -130,6 +141,14 @@ package bttest
 //@   loop 1 invariant res != nil && fresh(res) && len(res.Entries) == len(req.Entries) && fresh(res.Entries)
 //@   loop 1 invariant held(tbl.mu) == 2
 //@   loop 1 invariant forall k :: 0 <= k <= idx1 ==> res.Entries[k] != nil && res.Entries[k].Index == k && res.Entries[k].Status != nil
+// C01/C06 per entry: the entry status is OK exactly when every mutation of that entry is valid (= applyMutations returned nil),
+// Internal otherwise; the row of an entry is committed only if all its mutations applied, at most once per entry
+//@   loop 1 invariant forall k :: 0 <= k <= idx1 ==> res.Entries[k].Status.Code == 0 || res.Entries[k].Status.Code == 13
+//@   loop 1 invariant forall k :: 0 <= k <= idx1 ==> ((res.Entries[k].Status.Code == 0) <==> (forall m :: 0 <= m < len(req.Entries[k].Mutations) ==> !mutBad(req.Entries[k].Mutations[m], tbl.def.ColumnFamilies, now)))
+//@   loop 1 invariant old(btCommits) <= btCommits && btCommits <= old(btCommits) + idx1 + 1
+//@   callsite applyMutations requires arg0 == tbl && arg1 == r && arg2 == req.Entries[idx1+1].Mutations && arg3 == now
+//@   callsite (*table).updateRow requires arg0 == tbl && arg1 == r && btCommits <= old(btCommits) + idx1 + 1
+//@   callsite (*table).updateRow requires forall m :: 0 <= m < len(req.Entries[idx1+1].Mutations) ==> !mutBad(req.Entries[idx1+1].Mutations[m], tbl.def.ColumnFamilies, now)
 
 //@ func (s *server) CheckAndMutateRow
 //@   property C06 C12
@@ -142,6 +161,30 @@ package bttest
 //@   ensures !old(req.TableName in s.tables) ==> result1 != nil && uf_grpcCode(result1) == codes.NotFound
 //@   ensures result0 != nil ==> fresh(result0)
 //@   ensures nolocks()
+// C06: no commit on an error path (invalid predicate, invalid mutation in the selected branch), exactly one otherwise
+//@   ensures result1 != nil ==> btCommits == old(btCommits)
+//@   ensures result1 == nil ==> btCommits == old(btCommits) + 1
+// C12: the predicate is evaluated on a deep copy; the row r read from the store keeps its invariants (needs the frame of filterRow)
+//@   callsite copyRow requires arg0 == r
+//@   callsite copyRow ensures rowOK(r) && famSep(r.Families)
+//@   callsite copyRow ensures colSep(r)
+//@   callsite copyRow ensures rowDesc(r)
+//@   callsite copyRow ensures rowsApart(r, result)
+//@   callsite filterRow requires arg0 == req.PredicateFilter && arg1 == nr && arg1 != r
+//@   callsite filterRow ensures rowOK(r) && famSep(r.Families)
+//@   callsite filterRow ensures colSep(r)
+//@   callsite filterRow ensures rowDesc(r)
+// C12: predicate_matched: without a filter <==> the row has a cell; with a filter <==> the filter matches and the filtered copy has a cell
+//@   callsite isEmpty requires (req.PredicateFilter == nil) == (arg0 == r)
+//@   callsite applyMutations requires req.PredicateFilter == nil ==> whichMut == !rowAllEmpty(r)
+// (with a filter the emptiness test is made on the filtered copy, never on r; `match`/`nr` are not in scope at the merge point,
+//  so "whichMut == match && !isEmpty(nr)" itself cannot be written as a callsite assertion: see the report)
+//@   callsite isEmpty requires arg0 != r ==> bytesEq(arg0.Key, r.Key)
+//@   callsite applyMutations requires res.PredicateMatched == whichMut
+// C12: exactly the selected list is applied, to the unfiltered row that was read
+//@   callsite applyMutations requires arg0 == tbl && arg1 == r && arg3 == now
+//@   callsite applyMutations requires arg2 == (whichMut ? req.TrueMutations : req.FalseMutations)
+//@   callsite (*table).updateRow requires arg0 == tbl && arg1 == r && btCommits == old(btCommits)
 
 // Two rows under construction share no family, no column, and no family / column / cell array (the request row r and
 // the response row of ReadModifyWriteRow are built side by side).
@@ -158,6 +201,13 @@ package bttest
 //@   ensures !old(req.TableName in s.tables) ==> result1 != nil && uf_grpcCode(result1) == codes.NotFound
 //@   ensures result0 != nil ==> fresh(result0) && result0.Row != nil
 //@   ensures nolocks()
+// C13/C06: exactly one commit, after all rules; none on an error path (unknown family, unknown rule kind, non-8-byte increment)
+//@   ensures result1 != nil ==> btCommits == old(btCommits)
+//@   ensures result1 == nil ==> btCommits == old(btCommits) + 1
+//@   ensures result1 == nil ==> forall k :: 0 <= k < len(req.Rules) ==> old(req.Rules[k].FamilyName in s.tables[req.TableName].def.ColumnFamilies)
+//@   loop 1 invariant btCommits == old(btCommits)
+//@   loop 1 invariant forall k :: 0 <= k <= idx1 ==> (req.Rules[k].FamilyName in cols)
+//@   callsite (*table).updateRow requires arg0 == tbl && arg1 == r && idx1 + 1 == len(req.Rules)
 //@   loop 1 invariant held(tbl.mu) == 2
 //@   loop 1 invariant rowOK(r) && fresh(r)
 //@   loop 1 invariant famSep(r.Families)
@@ -165,20 +215,18 @@ package bttest
 //@   loop 1 invariant rowDesc(r)
 //@   loop 1 invariant rowOK(resultRow) && fresh(resultRow)
 //@   loop 1 invariant famSep(resultRow.Families)
-//@   loop 1 invariant colSep(resultRow)
 //@   loop 1 invariant rowsApart(r, resultRow)
 // cuts: the same facts after each helper call (checked, then known)
 //@   callsite getOrCreateFamily ensures rowOK(r) && famSep(r.Families)
 //@   callsite getOrCreateFamily ensures colSep(r)
 //@   callsite getOrCreateFamily ensures rowDesc(r)
 //@   callsite getOrCreateFamily ensures rowOK(resultRow) && famSep(resultRow.Families)
-//@   callsite getOrCreateFamily ensures colSep(resultRow)
 //@   callsite getOrCreateFamily ensures rowsApart(r, resultRow)
+//@   callsite getOrCreateFamily requires arg0 == resultRow ==> rowsApart(r, resultRow)
 //@   callsite getOrCreateColumn ensures rowOK(r) && famSep(r.Families)
 //@   callsite getOrCreateColumn ensures colSep(r)
 //@   callsite getOrCreateColumn ensures rowDesc(r)
 //@   callsite getOrCreateColumn ensures rowOK(resultRow) && famSep(resultRow.Families)
-//@   callsite getOrCreateColumn ensures colSep(resultRow)
 //@   callsite getOrCreateColumn ensures rowsApart(r, resultRow)
 // C13, per rule: the cell written for a rule carries max(clock truncated to ms, newest timestamp of that column)
 //@   callsite appendOrReplaceCell requires arg1 != nil && arg1.TimestampMicros == (len(arg0) > 0 ? max(truncMs(now), arg0[0].TimestampMicros) : truncMs(now))
@@ -189,9 +237,7 @@ package bttest
 // (b) the rule is applied to the column it names, inside r
 //@   callsite getOrCreateFamily requires arg0 == resultRow ==> arg1 == req.Rules[idx1+1].FamilyName
 //@   callsite getOrCreateColumn requires bytesEq(arg1, req.Rules[idx1+1].ColumnQualifier)
-//@   callsite getOrCreateColumn ensures arg0 != fam ==> arg0.Name == fam.Name && (exists i :: 0 <= i < len(resultRow.Families) && resultRow.Families[i] == arg0)
 //@   callsite appendOrReplaceCell requires arg0 == col.Cells && fam.Name == req.Rules[idx1+1].FamilyName && bytesEq(col.Qualifier, req.Rules[idx1+1].ColumnQualifier)
-//@   callsite appendOrReplaceCell requires (exists i :: 0 <= i < len(r.Families) && r.Families[i] == fam) && (exists j :: 0 <= j < len(fam.Columns) && fam.Columns[j] == col)
 // (c) only the two known rule kinds reach the store
 //@   callsite appendOrReplaceCell requires typeis(req.Rules[idx1+1].Rule, *btpb.ReadModifyWriteRule_AppendValue) || typeis(req.Rules[idx1+1].Rule, *btpb.ReadModifyWriteRule_IncrementAmount)
 // (d) an increment on an existing newest value that is not 8 bytes long never reaches the store
